@@ -10,7 +10,8 @@ Oracle    on the implementation's trace, independent of the model, per `aux x if
           x is only entered when its (clock-only) needs hold; while x stays running the frames below m and the
           recorder deeds after the clause in m are silent and x runs once per run of the framer; when x
           completes the frames below m recur in the same tick without enter actions and x is exited; when m
-          is exited x is exited too; a running x ends in no other way.
+          is exited x is exited too; a running x ends in no other way; the active frames stay a top part of the
+          active frame's outline and the frames above m keep recurring and evaluating their preacts.
 """
 import core, floeng, floref
 from props.c07 import FloCheck
@@ -28,7 +29,7 @@ class CHECK(FloCheck):
             "auxiliary another clause names; needs on a tick counter "
             "that flip at chosen ticks; auxiliaries done in their first run / after 0-3 more runs / never; transitions to "
             "self, ancestors, descendants, other subtrees; stop/abort/start bids. Non-trivial = a conditional auxiliary is "
-            "started; distinct by program")
+            "started; distinct by program. In 40 % of the framers the frames are declared in an order independent of the hierarchy (random or exactly reversed: children before parents, forward `in`/`under`/`go`/`first` references).")
     TRUSTED = ["correspondence: real Builder + Skedder vs the Lean interpreter (engine 'flo'), full traces",
                "oracle evaluates start conditions only for needs over shares written by the clock framer alone"]
     PARTIAL = ["C10_suspended_frames takes the C05 invariant (AllInv) as hypothesis, which C05_reachable_partial "
@@ -150,6 +151,12 @@ class CHECK(FloCheck):
                                 return "%s: main frame f%d was exited but its conditional aux m%d is still running" % (where, mf, x)
                         continue
                     ol = outline[snap[i]["active"]]
+                    # (g) whatever else happened, the framer's active frames are a top part of its active frame's outline:
+                    #     a cut keeps every frame above the cut (the head of the main frame is preserved)
+                    if prev[i]["actives"] != ol[:len(prev[i]["actives"])]:
+                        return ("%s: conditional aux m%d of f%d is running and framer m%d has the active frames %s: not a "
+                                "top part of the outline %s of its active frame (frames above the main frame dropped)" % (
+                                    where, x, mf, i, prev[i]["actives"], ol))
                     if mf not in ol or prev[i]["actives"] != ol[:ol.index(mf) + 1]:
                         continue                      # the outline was not cut at this main frame (other finding)
                     below = set(ol[ol.index(mf) + 1:])
@@ -161,6 +168,17 @@ class CHECK(FloCheck):
                         if ev_below:
                             return "%s: conditional aux m%d of f%d is running but frames below ran %s" % (
                                 where, x, mf, [(e[0], e[1]) for e in ev_below])
+                        # … while the frames ABOVE the main frame go on: each recurs, and (when the run got as far as
+                        # running x) each evaluated its preacts before
+                        above = ol[:ol.index(mf)]
+                        x_ran = snap[x]["recurred"] == prev[x]["recurred"] + 1
+                        for b in above:
+                            if "recur" in ctx_of[b] and not any(e[0] == b and e[1] == "recur" for e in events):
+                                return "%s: conditional aux m%d of f%d is running but frame f%d above f%d did not recur" % (
+                                    where, x, mf, b, mf)
+                            if x_ran and "precur" in ctx_of[b] and not any(e[0] == b and e[1] == "precur" for e in events):
+                                return ("%s: conditional aux m%d of f%d ran but frame f%d above f%d did not evaluate its "
+                                        "preacts" % (where, x, mf, b, mf))
                         late = [e for e in events if e[0] == mf and e[1] == "precur" and e[2] in later]
                         if late:
                             return "%s: conditional aux m%d of f%d is running but later precur deeds of f%d ran (tags %s)" % (
